@@ -939,29 +939,80 @@ def rule_i17(F):
         r.missing("HIR of declare_runtime_type")
         return r
     ALLOWED = {"Primitive", "List"}
+    td = F.adt("typechecker::types::TypeDefinition")
+    vnames = [v["name"] for v in td["variants"]] if td else []
+
+    def inserts(path, depth=0):
+        hb = F.body(path) if path and F.has(path) else None
+        if hb is None or not hb.mir or depth > 2:
+            return False
+        return any(hir.last(mir.callee(t) or "") in ("insert_type", "insert_declaration") or ((mir.callee(t) or "").startswith("typechecker::") and mir.callee(t) != path and inserts(mir.callee(t), depth + 1))
+                   for _, t in mir.calls(hb))
+
+    def kinds_reaching(body, target, depth=0):
+        """the TypeDefinition variants with which `target` can be reached, as far as switches on the kind (here or in a predicate
+        helper whose answer is tested) say; None = not restricted"""
+        defs_ = mir.Defs(body)
+        dom_ = mir.dominators(body)
+        best = None
+        for di in dom_[target]:
+            t = body.blocks[di]["term"]
+            if t["k"] != "switch" or not mir.is_place_op(t["o"]):
+                continue
+            for d in defs_.whole_defs(t["o"][1][0]):
+                got = None
+                if d[2] == "assign" and d[3]["rv"]["k"] == "discr" and "TypeDefinition" in str(d[3]["rv"].get("ty") or ""):
+                    got = set()
+                    for v, tb in t["targets"]:
+                        if target in (mir.reachable_from(body, tb) | {tb}):
+                            got.add(vnames[v] if v < len(vnames) else "#%d" % v)
+                    ob = t["otherwise"]
+                    if target in (mir.reachable_from(body, ob) | {ob}) and not (body.blocks[ob]["term"]["k"] == "unreachable" and not body.blocks[ob]["stmts"]):
+                        got.add("(any other kind)")
+                elif d[2] == "call" and depth < 2 and (mir.callee(d[3]) or "").startswith("typechecker::") and F.has(mir.callee(d[3])) \
+                        and str(F.body(mir.callee(d[3])).mir["locals"][0].get("ty") if F.body(mir.callee(d[3])).mir else "") == "bool":
+                    hb = F.body(mir.callee(d[3]))
+                    # the edge taken when the predicate says true
+                    tg = dict(t["targets"])
+                    true_edge = t["otherwise"]
+                    if target not in (mir.reachable_from(body, true_edge) | {true_edge}) or (tg.get(0) is not None and target in (mir.reachable_from(body, tg[0]) | {tg[0]})):
+                        continue
+                    trues = [bi for bi, blk in enumerate(hb.blocks) for st in blk["stmts"]
+                             if st["k"] == "assign" and st["p"] == [0] and st["rv"]["k"] == "use" and (mir.op_const(st["rv"]["o"]) or {}).get("v") in (1, True)]
+                    got = set()
+                    for tb_ in trues:
+                        k_ = kinds_reaching(hb, tb_, depth + 1)
+                        got |= (k_ if k_ is not None else {"(unrestricted)"})
+                    if not trues:
+                        got = {"(unrestricted)"}
+                if got is not None:
+                    best = got if best is None else (best & got)
+        return best
     n = 0
-    for iff in hir.nodes(b.hir["value"], "if"):
-        rets = [x for x in hir.nodes(iff["then"], "ret") if "Ok" in str(hir.result_desc(x.get("e")))]
-        if not rets:
-            continue
-        if any(c["m"] in ("insert_type", "insert_declaration") for c in hir.nodes(iff["then"], "mcall")):
-            continue
-        n += 1
-        kinds = set()
-        negative = False
-        for l in [x for x in hir.walk(iff["cond"]) if x.get("k") == "let"]:
-            kinds |= set(re.findall(r"TypeDefinition::(\w+)", hir.pat_desc(l["pat"])))
-        for u in hir.walk(iff["cond"]):
-            if u.get("k") == "un" and u.get("op") in ("!", "Not") and "TypeDefinition::" in json.dumps(u)[:4000]:
-                negative = True
-            if u.get("k") == "match" and "TypeDefinition::" in " ".join(hir.pat_desc(a["pat"]) for a in u["arms"]):
-                kinds |= {"(matches! test)"}
-        r.inst("early Ok #%d" % n, {"line": iff.get("line"), "kinds_let_through": sorted(kinds), "negative_test": negative})
-        if not kinds or not kinds <= ALLOWED or negative:
-            r.bad(b.path, "already-declared name let through", relfile(b.file), iff.get("line") or b.line,
-                  "declare_runtime_type answers Ok without declaring anything for an existing declaration of kind %s: only primitives and List are registered by the runtime itself - a Rust "
-                  "type registered under the name of a built-in enum (`Option`, `Verdict`, `Result`) is accepted, the scope keeps the enum and signatures mentioning the Rust type are wrong"
-                  % (sorted(kinds) or "unrestricted"))
+    if b.mir:
+        defs = mir.Defs(b)
+        ins_blocks = {bi for bi, t in mir.calls(b) if hir.last(mir.callee(t) or "") in ("insert_type", "insert_declaration") or inserts(mir.callee(t) or "")}
+        oks = [bi for bi, blk in enumerate(b.blocks) for st in blk["stmts"] if st["k"] == "assign" and st["p"] == [0] and st["rv"]["k"] == "agg" and st["rv"].get("variant") == "Ok"]
+        # Ok produced by a callee and passed on (`return self.insert_runtime_type(..)`) belongs to that callee
+        for ob in oks:
+            # reachable from the entry without passing an inserting call?
+            seen, work = set(), [0]
+            while work:
+                x = work.pop()
+                if x in seen or x in ins_blocks:
+                    continue
+                seen.add(x)
+                work.extend(mir.succs(b.blocks[x]))
+            if ob not in seen:
+                continue
+            n += 1
+            kinds = kinds_reaching(b, ob)
+            r.inst("Ok without a declaration #%d" % n, {"line": b.blocks[ob]["term"].get("line"), "kinds_let_through": sorted(kinds) if kinds is not None else None})
+            if kinds is None or not kinds <= ALLOWED:
+                r.bad(b.path, "already-declared name let through", relfile(b.file), b.blocks[ob]["term"].get("line") or b.line,
+                      "declare_runtime_type answers Ok without declaring anything for an existing declaration of kind %s: only primitives and List are registered by the runtime itself - a Rust "
+                      "type registered under the name of a built-in enum (`Option`, `Verdict`, `Result`) is accepted, the scope keeps the enum and signatures mentioning the Rust type are wrong"
+                      % (sorted(kinds) if kinds is not None else "unrestricted"))
     if n == 0:
         r.missing("the skip of already declared primitives in declare_runtime_type")
     return r
